@@ -2,6 +2,7 @@ import AcraModel.Censor.Chain
 import AcraModel.Censor.Session
 import AcraModel.Censor.Match
 import AcraModel.Censor.Generalise
+import AcraModel.Censor.MatchTyping
 /-! Driver ops for C05 (acra-censor): the very definitions `Props/C05.lean` is about. -/
 namespace Driver.C05
 open AcraModel AcraModel.Censor Generated.CensorTable
@@ -172,7 +173,7 @@ def handle (op : String) (args : List String) : Option String :=
   | "tablekinds", [] => some (",".intercalate tableKinds)
   | "typed", [s] => do
     match ← stmtOf s with
-    | ⟨_, some q⟩ => pure s!"ok {wellTyped q.ast} {dmlKinds.contains q.ast.kind}"
+    | ⟨_, some q⟩ => pure s!"ok {wellTypedM q.ast} {dmlKinds.contains q.ast.kind}"
     | _ => pure "err"
   | "positions", [s] => do
     match ← stmtOf s with
